@@ -270,6 +270,14 @@ def cases(seed, tier, model_tuples=None):
             c["name"] = "fname/%r/%s" % (fn[:10], parent)
             c["usable"] = None
             out.append(c)
+    # unusual but legal file names (a backslash is an ordinary character on a '/'-separated host; names that
+    # look like V8's virtual ones): the map's only source is still the base name, every position resolves
+    for fn in ["/srv/app/generated\\join.js", "dist\\join.js", "<anonymous>", "<eval>/join.js", "/srv/app/lib/<generated>.js",
+               "/w/a b/c d.js", "/w/a/b.c.min.js", "/w/\u00fc/\u00f1.js", "/w/a/%41.js", "/w/a/#x?.js"]:
+        for ref in ("none", "inline"):
+            c = make_case(rng, LAYOUT_TEMPLATES[rng.randrange(len(LAYOUT_TEMPLATES))], ref, True, rng.random() < 0.5, "random", file=fn)
+            c["name"] = "name/%r/%s" % (fn, ref)
+            out.append(c)
     return out
 
 
